@@ -171,6 +171,35 @@ func TestClean(t *testing.T) {
 			lb := gen.DrawBundle(c, 6, true)
 			c.Event("%s", lb.Describe())
 			wp := drawWriterPlanOK(c)
+			if len(lb.Exchanges) > 0 && !lb.ExpectWriteError && c.Chance("bundle.nonUTF8URL", 1, 30) {
+				// a URL that net/url accepts but that is not valid UTF-8 cannot be a CBOR text
+				// string: the writer has to refuse it (the unchanged tree panics, which is
+				// outside every claimed property and counted as a refusal here); success with
+				// a malformed file is the violation
+				i := c.Pick("bundle.nonUTF8At", len(lb.Exchanges))
+				u := lb.Exchanges[i].URL
+				if _, multi := lb.Order[u]; multi && len(lb.Order[u]) == 1 {
+					nu := u + "?q=\xff"
+					if c.Bool("bundle.nonUTF8hasQuery") {
+						nu = u + "&q=\xff\xfe"
+					}
+					delete(lb.Order, u)
+					lb.Order[nu] = []int{i}
+					lb.Exchanges[i].URL = nu
+					c.Probe("URL that is not valid UTF-8")
+					wr := writeBundle(c, lb.ToRepo(), wp)
+					if wr.panicI == nil && wr.err == nil {
+						checkWellFormed(c, wr, "non-UTF-8 URL")
+						if c.Oracle("C03") {
+							if _, rerr, _, _, _ := readBundle(c, wr.data, core.ReaderPlan{ErrAt: -1}); rerr != nil {
+								c.Violation("read-error", "bundle.Read", "writer accepted a non-UTF-8 URL and produced a file the reader rejects: %v", rerr)
+							}
+						}
+					}
+					c.Outcome("nt:non-utf8-url")
+					return
+				}
+			}
 			wr := writeBundle(c, lb.ToRepo(), wp)
 			if wr.panicI != nil {
 				c.CheckTotal("Bundle.WriteTo", 0, wr.panicI, 0)
@@ -608,7 +637,7 @@ func TestReencode(t *testing.T) {
 				return
 			}
 			secs := p.RawSections(data)
-			op := c.PickStr("reencode.op", "unknown-section", "unknown-section", "reorder", "duplicate", "drop", "identity", "unknown-wrap", "length-cancel")
+			op := c.PickStr("reencode.op", "unknown-section", "unknown-section", "reorder", "duplicate", "drop", "identity", "unknown-wrap", "length-cancel", "alias-index", "alias-index")
 			switch op {
 			case "unknown-section":
 				pos := c.Int("reencode.pos", 0, len(secs)-1) // anywhere before "responses"
@@ -619,6 +648,44 @@ func TestReencode(t *testing.T) {
 				secs = append(ns, secs[pos:]...)
 				c.Fault("reencode-unknown-section")
 				c.Event("unknown section %q (%d bytes) inserted at position %d of %d", name, len(junk), pos, len(secs)-1)
+			case "alias-index":
+				// two index entries designate the same offset; the second with the same or a
+				// different length (legal aliasing when equal, an inconsistent entry otherwise)
+				if len(p.Index) < 2 {
+					op = "identity"
+					break
+				}
+				ents := append([]refbundle.IndexEntry(nil), p.Index...)
+				a := c.Pick("reencode.a", len(ents))
+				bI := c.Pick("reencode.b", len(ents))
+				if a == bI {
+					bI = (a + 1) % len(ents)
+				}
+				la := ents[a].Locs[0]
+				nl := refbundle.Loc{Off: la.Off, Len: la.Len}
+				switch c.Pick("reencode.aliasLen", 6) {
+				case 0: // exact alias
+				case 1:
+					nl.Len = la.Len - 1
+				case 2:
+					nl.Len = la.Len + 1
+				case 3:
+					nl.Len = 0
+				case 4:
+					nl.Len = la.Len + ents[bI].Locs[0].Len
+				default:
+					nl.Len = 1
+				}
+				locs := append([]refbundle.Loc(nil), ents[bI].Locs...)
+				locs[0] = nl
+				ents[bI].Locs = locs
+				for i := range secs {
+					if secs[i].Name == "index" {
+						secs[i].Data = refbundle.EncodeIndex(p.Version, ents)
+					}
+				}
+				c.Fault("reencode-aliased-index-entry")
+				c.Event("index entry %d now points at entry %d's offset %d with length %d (original %d)", bI, a, nl.Off, nl.Len, la.Len)
 			case "length-cancel":
 				// two declared section lengths changed by +d and -d (mod 2^64): every sum of
 				// lengths that includes both is unchanged, each length alone is absurd
